@@ -108,6 +108,21 @@ func runC06(p *core.Prog, r *core.Report) {
 				}
 			})
 		}
+		// carriers: the hashed values reach the buffer as they are — through getters, the two input helpers, the recursive
+		// hash, the filter query and plain conversions — never through a function that could map two different values to
+		// the same bytes (trimming, lower-casing, pretty-printing, truncation)
+		carriers := map[string]bool{}
+		for _, n := range c06Carriers {
+			carriers[n] = true
+		}
+		var foreign []string
+		for n := range calls {
+			if !carriers[n] && !strings.Contains(n, ".Get") {
+				foreign = append(foreign, n)
+			}
+		}
+		sort.Strings(foreign)
+		r.Check(len(foreign) == 0, "C06.R1", "hashModule/raw-values", "hashed field values reach the buffer unmodified (only getters, the input helpers, the recursive hash, the filter query string and byte/string conversions lie between a field and the buffer)", fmt.Sprintf("values pass through %v before being hashed", foreign), p.Pos(fn.Pos()))
 		// inputName / inputValue results must be written
 		r.Check(calls["manifest.inputName"] && calls["manifest.inputValue"], "C06.R1", "hashModule/inputs-written", "for every input its kind tag and its value are written into the hash", fmt.Sprintf("written call results: %v", keysOf(calls)), p.Pos(fn.Pos()))
 		// recursion: a written value is the direct result of hashing (a) the module resolved from BlockFilter.Module, (b) each element of AncestorsOf(module.Name)
@@ -535,3 +550,12 @@ func checkCachePaths(p *core.Prog, r *core.Report, rule string) {
 }
 
 func mt0(p *core.Prog) *types.Named { return p.Named(pkgPBV1, "Module") }
+
+// c06Carriers: functions allowed between a hashed field and the hashed buffer (each is injective on what it carries).
+var c06Carriers = []string{
+	"bytes.NewBuffer", "crypto/sha1.New", "hash.Hash.Sum", // the buffer and the digest themselves
+	"manifest.ModuleGraph.AncestorsOf", "manifest.ModuleGraph.Module", // resolvers: name → module (key-use)
+	"manifest.ModuleHashes.HashModule", "manifest.ModuleHashes.hashModule", "manifest.ModuleHashes.hashModuleSimple", // recursive hash
+	"manifest.inputName", "manifest.inputValue", // per-input kind tag and raw value
+	"pb/sf/substreams/v1.Module.BlockFilterQueryString", // the filter's query (literal, or the raw params value it names)
+}
